@@ -1,6 +1,7 @@
 //! Correspondence harness: drives the real acpi_tables crate (path = /repo) on generated or replayed
 //! cases and prints "<component>\t<case>\t<observations>" lines for the extracted model to judge.
 mod cksum;
+mod kernels;
 mod sx;
 
 use std::io::{BufRead, Write};
@@ -9,6 +10,7 @@ use sx::*;
 fn run_component(comp: u64, case: &Sx) -> Vec<Ev> {
     let r = std::panic::catch_unwind(std::panic::AssertUnwindSafe(|| match comp {
         1 => cksum::run(case),
+        2..=6 => kernels::run(comp, case),
         _ => panic!("harness: unknown component {}", comp),
     }));
     match r {
@@ -28,10 +30,49 @@ fn emit_line(out: &mut dyn Write, comp: u64, case: &Sx, evs: &[Ev]) {
     out.write_all(s.as_bytes()).unwrap();
 }
 
+/// Case sink handed to the generators: runs the cases of this shard against the crate and prints them.
+pub struct Emit<'a> {
+    out: &'a mut dyn Write,
+    prop: u32,
+    shard: u64,
+    nshards: u64,
+    sweep_idx: u64,
+    stats: Stats,
+}
+
+impl Emit<'_> {
+    /// an ordinary case: sharded by content so that equal cases meet and distinct counts are exact
+    pub fn case(&mut self, comp: u64, case: Sx) {
+        let mine = self.nshards == 1 || {
+            use std::hash::{Hash, Hasher};
+            let mut h = std::collections::hash_map::DefaultHasher::new();
+            comp.hash(&mut h);
+            case.show().hash(&mut h);
+            (h.finish() >> 7) % self.nshards == self.shard
+        };
+        if mine {
+            let evs = run_component(comp, &case);
+            self.stats.record(self.prop, comp, &case, &evs, true);
+            emit_line(self.out, comp, &case, &evs);
+        }
+    }
+    /// a case of an enumeration without repetition (exhaustive sweeps): sharded by index, not hashed
+    pub fn sweep(&mut self, comp: u64, case: Sx) {
+        let mine = self.sweep_idx % self.nshards == self.shard;
+        self.sweep_idx += 1;
+        if mine {
+            let evs = run_component(comp, &case);
+            self.stats.record(self.prop, comp, &case, &evs, false);
+            emit_line(self.out, comp, &case, &evs);
+        }
+    }
+}
+
 /// What a generation run covered: written to $HARNESS_STATS for the evidence file.
 #[derive(Default)]
 struct Stats {
     cases: u64,
+    sweep_cases: u64,
     hashes: std::collections::HashSet<u64>,
     nontrivial_hashes: std::collections::HashSet<u64>,
     per_comp: std::collections::BTreeMap<u64, u64>,
@@ -52,17 +93,22 @@ fn nontrivial(prop: u32, _comp: u64, case: &Sx) -> bool {
 }
 
 impl Stats {
-    fn record(&mut self, prop: u32, comp: u64, case: &Sx, evs: &[Ev]) {
+    fn record(&mut self, prop: u32, comp: u64, case: &Sx, evs: &[Ev], hashed: bool) {
         use std::hash::{Hash, Hasher};
         let text = case.show();
-        let mut h = std::collections::hash_map::DefaultHasher::new();
-        comp.hash(&mut h);
-        text.hash(&mut h);
-        let hv = h.finish();
         self.cases += 1;
-        self.hashes.insert(hv);
-        if nontrivial(prop, comp, case) {
-            self.nontrivial_hashes.insert(hv);
+        if hashed {
+            let mut h = std::collections::hash_map::DefaultHasher::new();
+            comp.hash(&mut h);
+            text.hash(&mut h);
+            let hv = h.finish();
+            self.hashes.insert(hv);
+            if nontrivial(prop, comp, case) {
+                self.nontrivial_hashes.insert(hv);
+            }
+        } else {
+            // enumerated without repetition
+            self.sweep_cases += 1;
         }
         *self.per_comp.entry(comp).or_insert(0) += 1;
         if evs.iter().any(|e| matches!(e, Ev::Panic)) {
@@ -85,8 +131,8 @@ impl Stats {
         format!(
             "{{\"cases\": {}, \"distinct\": {}, \"distinct_nontrivial\": {}, \"panics\": {}, \"events\": {}, \"max_case_len\": {}, \"per_component\": {{{}}}, \"classes\": {{{}}}, \"samples\": [{}]}}",
             self.cases,
-            self.hashes.len(),
-            self.nontrivial_hashes.len(),
+            self.hashes.len() as u64 + self.sweep_cases,
+            self.nontrivial_hashes.len() as u64 + self.sweep_cases,
             self.panics,
             self.events,
             self.max_case_len,
@@ -105,6 +151,27 @@ fn classify(_prop: u32, comp: u64, case: &Sx, _evs: &[Ev]) -> Vec<String> {
             for op in case.list() {
                 v.push(format!("cksum.op{}", op.list()[0].num()));
             }
+        }
+        2 => {
+            let c = case.list();
+            let n = c[0].num();
+            let w = if n < 63 { 1 } else if n < 4094 { 2 } else if n < (1 << 20) - 3 { 3 } else if n < (1 << 28) - 4 { 4 } else { 5 };
+            v.push(format!("pkglen.{}.width{}", if c[1].num() != 0 { "incl" } else { "excl" }, w));
+        }
+        3 => {
+            let c = case.list();
+            let n = c[1].num();
+            let w = if n < 2 { 0 } else if n < 256 { 1 } else if n < 65536 { 2 } else if n < (1 << 32) { 4 } else { 8 };
+            v.push(format!("int.ty{}.bytes{}", c[0].num(), w));
+        }
+        4 => {
+            let t = case.bytes();
+            let segs = t.iter().filter(|b| **b == b'.').count() + 1;
+            let cls = if segs == 1 { "1" } else if segs == 2 { "2" } else if segs <= 255 { "3..255" } else { ">255" };
+            v.push(format!("path.segs{}.{}", cls, if _evs.iter().any(|e| matches!(e, Ev::Panic)) { "refused" } else { "emitted" }));
+        }
+        5 | 6 => {
+            v.push(format!("{}.{}", if comp == 5 { "eisa" } else { "uuid" }, if _evs.iter().any(|e| matches!(e, Ev::Panic)) { "refused" } else { "emitted" }));
         }
         _ => {}
     }
@@ -131,26 +198,16 @@ fn main() {
             let shard: u64 = args.get(5).map(|s| s.parse().unwrap()).unwrap_or(0);
             let nshards: u64 = args.get(6).map(|s| s.parse().unwrap()).unwrap_or(1);
             let mut rng = Rng(seed ^ 0xC0FF_EE00 ^ ((prop as u64) << 32));
-            let mut stats = Stats::default();
-            let mut emit = |comp: u64, case: Sx| {
-                // shard by content, so that equal cases meet in one shard and distinct counts are exact
-                let mine = nshards == 1 || {
-                    use std::hash::{Hash, Hasher};
-                    let mut h = std::collections::hash_map::DefaultHasher::new();
-                    comp.hash(&mut h);
-                    case.show().hash(&mut h);
-                    (h.finish() >> 7) % nshards == shard
-                };
-                if mine {
-                    let evs = run_component(comp, &case);
-                    stats.record(prop, comp, &case, &evs);
-                    emit_line(&mut out, comp, &case, &evs);
-                }
-            };
+            let mut emit = Emit { out: &mut out, prop, shard, nshards, sweep_idx: 0, stats: Stats::default() };
             match prop {
+                7 => kernels::gen_c07(tier, &mut rng, &mut emit),
+                8 => kernels::gen_c08(tier, &mut rng, &mut emit),
+                9 => kernels::gen_c09(tier, &mut rng, &mut emit),
+                16 => kernels::gen_c16(tier, &mut rng, &mut emit),
                 17 => cksum::gen(tier, &mut rng, &mut emit),
                 _ => panic!("harness: no generator for property {}", prop),
             }
+            let stats = emit.stats;
             if let Ok(path) = std::env::var("HARNESS_STATS") {
                 std::fs::write(path, stats.to_json()).unwrap();
             }
